@@ -79,9 +79,12 @@ def unit_pairing():
         def __init__(self, cc):
             self.commandCode = cc
 
-    for nmsgs in range(0, 6):
+    # messages with pairwise distinct events, and messages whose events are all the same object (equal event lists:
+    # a result remembered per event list would hand an earlier message's object / command code to a later one; round 13)
+    for nmsgs, same in [(n, s) for n in range(0, 6) for s in (False, True) if not (s and n < 2)]:
         ctx = Ctx()
-        groups = [[object()] for _ in range(nmsgs)]
+        shared = object()
+        groups = [[shared if same else object()] for _ in range(nmsgs)]
         calls = []
         codes = [object() for _ in range(nmsgs)]
         objs = []
@@ -103,9 +106,9 @@ def unit_pairing():
         try:
             out = run_sync(I.iterate_all(g))
         except PyExc as e:
-            ob(f"messages-{nmsgs}", False, f"raised {e.exc!r}")
+            ob(f"messages-{nmsgs}{'-equal-event-lists' if same else ''}", False, f"raised {e.exc!r}")
             continue
-        ok = len(out) == nmsgs and all(a is b for a, b in zip(out, objs))
+        ok = len(out) == nmsgs and len(calls) == nmsgs and all(a is b for a, b in zip(out, objs))
         for k, (a, kw) in enumerate(calls):
             ev = a[0] if a else kw.get("events")
             ok = ok and ev is groups[k]
@@ -114,7 +117,7 @@ def unit_pairing():
                 ok = ok and cc is None
             else:
                 ok = ok and cc is codes[k - 1]
-        ob(f"messages-{nmsgs}", ok, f"{len(out)} objects for {nmsgs} messages; command codes handed on: {[('prev' if (c[0][1] if len(c[0]) > 1 else c[1].get('command_code')) is not None else None) for c in calls]}")
+        ob(f"messages-{nmsgs}{'-equal-event-lists' if same else ''}", ok, f"{len(out)} objects for {nmsgs} messages; command codes handed on: {[('prev' if (c[0][1] if len(c[0]) > 1 else c[1].get('command_code')) is not None else None) for c in calls]}")
     return u
 
 
